@@ -8,4 +8,12 @@ from nbsa.core import Repo
 r = Repo(sys.argv[1] if len(sys.argv) > 1 else '/repo')
 ids = sorted(r.functions)
 json.dump(ids, open('/verif/nbsa/baseline_functions.json', 'w'), indent=0)
+from nbsa.inline import function_features
+feats = {}
+for m in r.modules.values():
+    import ast
+    for st in m.tree.body:
+        if isinstance(st, ast.FunctionDef):
+            feats['%s:%s' % (m.name, st.name)] = function_features(st)
+json.dump(feats, open('/verif/nbsa/baseline_features.json', 'w'), indent=0, sort_keys=True)
 print(len(ids), 'functions and methods')
